@@ -584,6 +584,12 @@ def gen_plot_case(rng):
         rows = [[int(v) for v in rng.integers(-9, 10, size=len(cols))] for _ in range(n)]
         if rows and rng.random() < 0.3:
             rows.append(list(rows[int(rng.integers(0, len(rows)))]))          # a repeated row must be plotted twice
+        if rows and rng.random() < 0.3:
+            # missing values (NaN cells), in plotted and in unplotted columns: the row must still be in the figure exactly once
+            for _ in range(int(rng.integers(1, 4))):
+                i, j = int(rng.integers(0, len(rows))), int(rng.integers(0, len(cols)))
+                if cols[j] != 'Data':
+                    rows[i][j] = None
         return cols, rows
     rc, rr = frame()
     real = (rc, rr)
@@ -622,7 +628,7 @@ def gen_plot_case(rng):
 def coq_frame(fr):
     cols, rows = fr
     ids = [PLOT_NAMES.index(c) for c in cols]
-    rws = '; '.join('[' + '; '.join(f'({i}, ({v})%Z)' for i, v in zip(ids, r)) + ']' for r in rows)
+    rws = '; '.join('[' + '; '.join(f'({i}, ({v})%Z)' for i, v in zip(ids, r) if v is not None) + ']' for r in rows)      # a NaN cell: no entry
     return f'(mkFrame [{"; ".join(map(str, ids))}] [{rws}])'
 
 
@@ -669,7 +675,8 @@ def run_plot_impl(c):
 
     def df(fr):
         cols, rows = fr
-        return pd.DataFrame({col: pd.Series([r[j] for r in rows], dtype='int64') for j, col in enumerate(cols)}, columns=cols)
+        return pd.DataFrame({col: pd.Series([r[j] for r in rows], dtype='float64' if any(r[j] is None for r in rows) else 'int64')
+                             for j, col in enumerate(cols)}, columns=cols)
     real = df(c['real'])
     synth = df(c['synth']) if c['synth'] is not None else None
     columns = None if c['columns'] is None else list(c['columns'])
@@ -714,7 +721,8 @@ def multiset_oracle(c, out):
             continue
         fc, rows = fr
         for r in rows:
-            exp.append((lab, tuple((lab if col == 'Data' else (r[fc.index(col)] if col in fc else 'nan')) for col in cols)))
+            exp.append((lab, tuple((lab if col == 'Data' else ((r[fc.index(col)] if r[fc.index(col)] is not None else 'nan') if col in fc else 'nan'))
+                                   for col in cols)))
     got = [(name, tuple(p)) for name, pts in out[1] for p in pts]
     return sorted(map(repr, exp)) == sorted(map(repr, got)), f'expected {sorted(map(repr, exp))[:6]} got {sorted(map(repr, got))[:6]}'
 
